@@ -127,7 +127,8 @@ def st_case(draw):
     return {"mode": mode, "m": m, "n": n, "strides": strides, "mc": mc, "ci": ci, "co": co, "batch": batch,
             "dtype": dtype, "as_tuple": draw(st.booleans()), "seed": draw(A.seeds),
             "d": draw(_values(dshape, dtype)), "f": draw(_values(fshape, dtype)),
-            "dlayout": draw(st.sampled_from(A.LAYOUTS)), "flayout": draw(st.sampled_from(A.LAYOUTS))}
+            "dlayout": draw(st.sampled_from(A.LAYOUTS)), "flayout": draw(st.sampled_from(A.LAYOUTS)),
+            "positional": draw(st.sampled_from([False, False, True]))}
 
 
 # ------------------------------------------------------------------ oracle
@@ -373,13 +374,23 @@ def check_case(case):
         yref = xadj = gadj = None
 
     # ---- functions on the drawn arrays
-    ok, y = ctx.call("convolve", lambda: sp.convolve(d, f, **kw))
+    if case.get("positional"):
+        # the documented positional order convolve(data, filt, mode, strides, multi_channel)
+        ok, y = ctx.call("convolve", lambda: sp.convolve(d, f, kw["mode"], kw["strides"], kw["multi_channel"]))
+    else:
+        ok, y = ctx.call("convolve", lambda: sp.convolve(d, f, **kw))
     if ok:
         ctx.cmp("convolve", y, yref, sd * sf)
-    ok, x = ctx.call("data_adjoint", lambda: sp.convolve_data_adjoint(y0, f, cast(dshape), **kw))
+    if case.get("positional"):
+        ok, x = ctx.call("data_adjoint", lambda: sp.convolve_data_adjoint(y0, f, cast(dshape), kw["mode"], kw["strides"], kw["multi_channel"]))
+    else:
+        ok, x = ctx.call("data_adjoint", lambda: sp.convolve_data_adjoint(y0, f, cast(dshape), **kw))
     if ok:
         ctx.cmp("data_adjoint", x, xadj, sy * sf)
-    ok, g = ctx.call("filter_adjoint", lambda: sp.convolve_filter_adjoint(y0, d, cast(fshape), **kw))
+    if case.get("positional"):
+        ok, g = ctx.call("filter_adjoint", lambda: sp.convolve_filter_adjoint(y0, d, cast(fshape), kw["mode"], kw["strides"], kw["multi_channel"]))
+    else:
+        ok, g = ctx.call("filter_adjoint", lambda: sp.convolve_filter_adjoint(y0, d, cast(fshape), **kw))
     if ok:
         ctx.cmp("filter_adjoint", g, gadj, sy * sd)
 
